@@ -70,7 +70,7 @@ def roleCounts (r : String) : Option (Cnt × Nat) :=
 
 /-- roles executed: list of role indices, one per execution of a role function -/
 def executions (mode : String) (threads iters nroles : Nat) : List Nat × Nat :=
-  let nSink := if mode = "S" then threads else if mode = "D" then 0 else threads / 2
+  let nSink := if mode = "S" then threads else if mode = "D" || mode = "G" then 0 else threads / 2
   let nDirect := threads - nSink
   let sinkEx := (List.range (nSink * iters)).map (· % nroles)
   let directEx := (List.range nDirect).flatMap fun i => List.replicate iters ((nSink + i) % nroles)
@@ -81,6 +81,14 @@ def executions (mode : String) (threads iters nroles : Nat) : List Nat × Nat :=
 inductive Obs where
   | enter (t a : Nat)
   | exit (t : Nat) (k : Outcome) (levels : Nat)
+  -- protocol events recorded at the instrumentation points of hooks/C12.patch
+  | look (t a o : Nat)          -- k<tid><name><owner read>
+  | decide (t : Nat) (re : Bool) -- d<tid>r | d<tid>l
+  | lock (t : Nat) | setOwner (t : Nat) | bodyEnd (t : Nat) | reset (t : Nat) | unlock (t : Nat)
+
+def Obs.isProtocol : Obs → Bool
+  | .enter .. | .exit .. => false
+  | _ => true
 
 def parseOutcome (c : Char) : Option Outcome :=
   if c = 'n' then some .normal else if c = 'e' then some .error else if c = 'r' then some .ret
@@ -104,11 +112,33 @@ def parseObs (s : String) : Option Obs :=
                   else some (.exit (String.ofList ds).toNat! o (l.toNat - '0'.toNat))
       | none => none
     | _ => none
+  | 'k' :: rest =>
+    let ds := rest.takeWhile Char.isDigit
+    match rest.dropWhile Char.isDigit with
+    | n :: os => if ds.isEmpty || n < 'a' || n > 'c' || os.isEmpty || !os.all Char.isDigit then none
+                 else some (.look (String.ofList ds).toNat! (n.toNat - 'a'.toNat) (String.ofList os).toNat!)
+    | _ => none
+  | 'd' :: rest =>
+    let ds := rest.takeWhile Char.isDigit
+    match rest.dropWhile Char.isDigit with
+    | [c] => if ds.isEmpty then none else
+             if c = 'r' then some (.decide (String.ofList ds).toNat! true)
+             else if c = 'l' then some (.decide (String.ofList ds).toNat! false) else none
+    | _ => none
+  | c :: rest =>
+    if rest.isEmpty || !rest.all Char.isDigit then none else
+    let t := (String.ofList rest).toNat!
+    if c = 'l' then some (.lock t) else if c = 's' then some (.setOwner t)
+    else if c = 'b' then some (.bodyEnd t) else if c = 'r' then some (.reset t)
+    else if c = 'u' then some (.unlock t) else none
   | _ => none
 
 def obsThread : Obs → Nat
   | .enter t _ => t
   | .exit t _ _ => t
+  | .look t _ _ => t
+  | .decide t _ => t
+  | .lock t | .setOwner t | .bodyEnd t | .reset t | .unlock t => t
 
 /-- re-tabulate the state (same values on the listed threads and names): keeps lookups cheap -/
 def compact (tids names : List Nat) (s : State) : State :=
@@ -149,6 +179,29 @@ def applyObs (s : State) : Obs → Except String (State × Nat)
       s := s'
       n := n + m
     pure (s, n)
+  | _ => .error "protocol-event-in-an-enter/exit-trace"
+
+/-- exact mode: one recorded protocol event = one model event; the owner value Go read and the
+    branch Go took must be the model's -/
+def applyExact (s : State) : Obs → Except String (State × Nat)
+  | .look t a o => do
+    let s ← runAll s [.look t a]
+    match (s.thr t).pc with
+    | .decide _ o' => if o' = o then pure (s, 1) else .error s!"go-read-owner-{o}-model-{o'}"
+    | _ => .error "model-not-at-decide"
+  | .decide t re => do
+    let s ← runAll s [.decide t]
+    match (s.thr t).pc, re with
+    | .run, true => pure (s, 1)
+    | .wantLock _, false => pure (s, 1)
+    | _, _ => .error (if re then "go-reentered-model-locks" else "go-locks-model-reenters")
+  | .lock t => do let s ← runAll s [.lock t]; pure (s, 1)
+  | .setOwner t => do let s ← runAll s [.setOwner t]; pure (s, 1)
+  | .bodyEnd t => do let s ← runAll s [.bodyEnd t .normal]; pure (s, 1)
+  | .reset t => do let s ← runAll s [.resetOwner t]; pure (s, 1)
+  | .unlock t => do let s ← runAll s [.unlock t]; pure (s, 1)
+  | .enter t a => do let s ← runAll s [.read t a, .write t]; pure (s, 2)
+  | .exit _ _ _ => pure (s, 0)
 
 structure Replay where
   ok : Bool
@@ -157,7 +210,7 @@ structure Replay where
   overlap : Bool
   final : State
 
-def replay (tids : List Nat) (obs : List (String × Obs)) : Replay := Id.run do
+def replay (exact : Bool) (tids : List Nat) (obs : List (String × Obs)) : Replay := Id.run do
   let names := [0, 1, 2]
   let mut s := init
   let mut n := 0
@@ -173,7 +226,7 @@ def replay (tids : List Nat) (obs : List (String × Obs)) : Replay := Id.run do
       | none => pure ()
       last := (a, t) :: last.filter (·.1 != a)
     | _ => pure ()
-    match applyObs s o with
+    match (if exact then applyExact s o else applyObs s o) with
     | .ok (s', m) =>
       s := compact tids names s'
       n := n + m
@@ -220,14 +273,16 @@ def runCase (line : String) : String :=
         | none => res ++ "\treplay=bad-trace"
         | some obs =>
           let tids := (obs.map fun p => obsThread p.2).eraseDups
-          let r := replay tids obs
+          let exact := obs.any fun p => p.2.isProtocol
+          let r := replay exact tids obs
           let verdict :=
             if !r.ok then r.why
             else if !quiescent tids r.final then "end:not-quiescent"
             else if ((r.final.mtx 0).ctr, (r.final.mtx 1).ctr, (r.final.mtx 2).ctr) != cnt then
               s!"end:model-counters-{(r.final.mtx 0).ctr},{(r.final.mtx 1).ctr},{(r.final.mtx 2).ctr}"
             else "ok"
-          res ++ s!"\treplay={verdict}\tev={r.events}" ++ (if r.overlap then "\tnt=1" else "")
+          res ++ s!"\treplay={verdict}\tev={r.events}" ++ (if exact then "\texact=1" else "") ++
+            (if r.overlap then "\tnt=1" else "")
     | _ => "bad-payload"
   | _ => "bad-line"
 
